@@ -46,6 +46,9 @@ static void mode_c06() {
         std::vector<double> rho;
         int flavour = (int)r.range(0, 3);
         set_profiles(r, ps, s, rho, flavour);
+        // as in the main loop, the charge on the grid has been measured since the profiles changed (and is not one): the wake is
+        // linear in the profiles whatever the phase space reports as its integral
+        if (c % 2 == 1) { ps->integrate(); M.ev("fields_with_measured_charge_not_one"); }
         auto imp = std::make_shared<Impedance>(s.Z, (frequency_t)1e12);
         ElectricField ef(ps, imp, s.buckets, s.spacing, nullptr, s.frev, (meshaxis_t)s.revpart, s.Ib, s.E0, s.sE, s.dt);
         // the wake must not depend on what the object was asked before: in half of the cases request the CSR
